@@ -207,6 +207,10 @@ def plan(pid: str, tier: str, seed: int) -> dict:
                + [(n, {"AnyOrder": "TRUE"}, {}) for n in ("firstoffail", "mmfail", "quorumfail")]
                + ([] if quick else [(n, {"AnyOrder": "TRUE", "MaxWithhold": 2}, {"depth": 70}) for n in
                                     ("quorumfail", "firstof", "quorumimpossible", "cycle2")]),
+            # concurrency slots ("... or explicitly waiting for a concurrency slot"): spec/Slots.tla, one worker model-checked
+            # incl. liveness, two workers: every interleaving of the racing handlers executed on real threads and compared
+            # with the specification's reachable / terminal status assignments
+            component=lambda rep: slots_component(rep, tier, seed),
         )
     if pid == "C06":
         progs = core + extra + [PR.by_name(n) for n in ("before2", "beforeafter", "afterfail", "siblingfail",
@@ -411,6 +415,12 @@ def adapt_component(rep: Reporter, res: dict) -> dict:
         rep.violation(v["what"], ctx, v.get("replay") or {})
     return {"states": res.get("states", 0), "transitions": res.get("transitions", 0),
             "replayed": res.get("cases_replayed", 0), "configs": res.get("details"), "samples": res.get("samples", [])[:3]}
+
+
+def slots_component(rep: Reporter, tier: str, seed: int) -> dict:
+    from . import check_slots
+
+    return check_slots.component(rep, tier, seed)
 
 
 def suspend_component(rep: Reporter, tier: str, seed: int) -> dict:
